@@ -16,6 +16,11 @@ for name in sorted(os.listdir(root)):
     v = (r.get("check_quick_violations") or [""])[0]
     mm = re.search(r"replays/(C\d+)/([a-z0-9_]+)-([a-z0-9_]+)-[0-9a-f]+", v)
     caught = f"{mm.group(1)} {mm.group(2)}: `{mm.group(3)}`" if mm else ("—" if not r.get("detected_quick") else "yes")
+    if not r.get("detected_quick") and r.get("detected_by_other"):
+        o = r["detected_by_other"]
+        v2 = (r.get("also", {}).get(o, {}).get("violations") or [""])[0]
+        m2 = re.search(r"replays/(C\d+)/([a-z0-9_]+)-([a-z0-9_]+)-[0-9a-f]+", v2)
+        caught = (f"{m2.group(1)} {m2.group(2)}: `{m2.group(3)}`" if m2 else o) + " (another property's check; see note in meta.json)"
     files = ", ".join(os.path.basename(f) for f in m.get("files", []))
     rows.append(f"| {name} | {files} | {summ} | {caught} |")
 print("| seeded change | file | what it does | caught by (quick tier: part, oracle) |")
